@@ -1036,6 +1036,12 @@ func rotationsFor(p rlwe.Parameters, batch, n int) []uint64 {
 	return p.GaloisElements(rots)
 }
 
+// FLAGAFTER control: the components are taken out of the NTT domain, the flag is not
+func (e fixEvaluator) ToCoeffs(res map[int]*rlwe.Ciphertext, index int) {
+	e.r.INTT(res[index].Value[0], res[index].Value[0])
+	e.r.INTT(res[index].Value[1], res[index].Value[1])
+}
+
 // INDEG control: the first two components of the input, whatever its degree
 func (e fixEvaluator) SumTwo(ctIn, opOut *rlwe.Ciphertext) {
 	e.r.Add(ctIn.Value[0], ctIn.Value[1], opOut.Value[0])
